@@ -87,6 +87,18 @@ def run(chk):
         stream = b"".join(x.replace(b"\n", b"") + eol() for x in mixed)
         if rng.random() < 0.3: stream += rng.choice([b"5 H", b"-1 X a", b"5", b"\r", b"7 C 1.2.3.4 1 2"])     # peer dies in mid-line
         jobs.append((scn, stream, "junk+mutation"))
+    # (a2) deterministic: every reply line of the fixed corpus histories arrives twice (at once, and all of them again at the end) - the
+    #      second copy of a final answer names nothing that is awaited any more and must be as inert as any other junk line
+    for scn in [s_ for s_ in corpus() if not any(it[0] == 'R' for it in s_.items)]:
+        lines = [it[1] for it in scn.items]
+        isrep = lambda l: len(l.split(b" ")) > 1 and l.split(b" ")[1] in (b"X", b"x")
+        if not any(isrep(l) for l in lines): continue
+        twice = [x for l in lines for x in ((l, l) if isrep(l) else (l,))]
+        jobs.append((scn, b"".join(x + b"\n" for x in twice), "every reply twice")); chk.hist("every reply twice")
+        ends = [i for i, l in enumerate(lines) if l.split(b" ")[1:2] in ([b"D"], [b"T"])]
+        cut = ends[0] if ends else len(lines)
+        late = lines[:cut] + [l for l in lines[:cut] if isrep(l)] + lines[cut:]
+        jobs.append((scn, b"".join(x + b"\n" for x in late), "all replies again before the first client leaves")); chk.hist("replies repeated later")
     # (b) every prefix of a few streams: peer death at any byte
     nprefix = 12 if quick else 300
     for scn, stream, _ in jobs[:nprefix]:
@@ -114,6 +126,14 @@ def run(chk):
         elif got != exp:
             k = next((i for i in range(min(len(got), len(exp))) if got[i] != exp[i]), min(len(got), len(exp)))
             why = ("output differs from the model at line %d: daemon %r, model %r" % (k, got[k] if k < len(got) else None, exp[k] if k < len(exp) else None), False)
+            if kind in ("every reply twice", "all replies again before the first client leaves"):
+                # the property itself, on the daemon alone: if the repeated replies are junk (the model, for which the no-op is proved,
+                # gives the same output without them), the daemon must treat the other lines the same with and without them
+                plain = b"".join(it[1] + b"\n" for it in scn.items)
+                mp = run_model(drv, [Scn(scn.with_xq, scn.with_class, scn.svcs, scn.rules, scn.timeout, stream_items(plain))])[0]
+                rcp, lp, ep = raw_run(impl, scn, plain)
+                if [l for st_ in mp for l in st_[0]] == exp and rcp == 0 and filt(lp) != got:
+                    why = ("replies that name nothing awaited any more (each final answer delivered a second time) change the treatment of the other lines: with them %r, without them %r" % (got[k] if k < len(got) else None, filt(lp)[k] if k < len(filt(lp)) else None), True)
         if why:
             # minimise on lines of the stream
             def fails(cand):
@@ -245,4 +265,4 @@ def run(chk):
                 chk.cov["traces_validated_against_impl"] += 1
     chk.cov["distinct_nontrivial"] = len(distinct)
     chk.cov["samples"] = [repr(jobs[0][1][:300]), repr(jobs[len(base) + 5][1]) if len(jobs) > len(base) + 5 else "", repr(jobs[-1][1][:120])]
-    chk.cov["rule"] = "byte streams: generated sessions with junk lines (unknown ids, unknown commands, malformed replies, missing parameters, >16 parameters, 5000-byte lines, NUL and high bytes) and mutations mixed in, CRLF and LF line ends, a final partial line; every prefix of the first streams; random bytes; the same stream through a pipe in 1-byte / random / page-sized chunks; bursts of exactly 4096, 8192 and 12288 bytes of complete lines, followed by end of input and with the input left open (answers must not wait for more input). Required: exit status 0, sanitizers silent, stdout equal to the model's output for the complete lines of the stream; distinct = distinct non-empty outputs"
+    chk.cov["rule"] = "byte streams: generated sessions with junk lines (unknown ids, unknown commands, malformed replies, missing parameters, >16 parameters, 5000-byte lines, NUL and high bytes) and mutations mixed in, every reply of the fixed corpus histories delivered twice, CRLF and LF line ends, a final partial line; every prefix of the first streams; random bytes; the same stream through a pipe in 1-byte / random / page-sized chunks; bursts of exactly 4096, 8192 and 12288 bytes of complete lines, followed by end of input and with the input left open (answers must not wait for more input). Required: exit status 0, sanitizers silent, stdout equal to the model's output for the complete lines of the stream; distinct = distinct non-empty outputs"
